@@ -180,7 +180,19 @@ func vfC08(w *vfWorld) {
 		}
 		cs.Requests++
 		want := rules().admits(s.u.Email, s.groups, s.htpasswd)
-		kind := t.Choice("c08.reqkind", 3)
+		kind := t.Choice("c08.reqkind", 4)
+		if !want && w.redis != nil && t.Prob("c08.del-fails", 300) {
+			// the refusal happens while the store cannot delete (read-only replica, timeout): the browser's cookie is cleared all the same
+			fk := vfPick(t, "c08.del-fault", []vfRedisFaultKind{vfRFErrBefore, vfRFTimeout})
+			w.redis.Plan = func(ev *vfRedisEvent) vfRedisFault {
+				if ev.Name == "DEL" || ev.Name == "UNLINK" {
+					return vfRedisFault{Kind: fk}
+				}
+				return vfRedisFault{}
+			}
+			defer func() { w.redis.Plan = nil }()
+			label += " (store cannot delete)"
+		}
 		switch kind {
 		case 0, 1:
 			r := s.b.GET(rep, "/app/data")
@@ -225,6 +237,23 @@ func vfC08(w *vfWorld) {
 			}
 			if r.Status != 202 && r.Status != 403 && r.Status != 401 {
 				w.violate("C08", "odd-status", "auth", "/auth answered %d", r.Status)
+			}
+		case 3:
+			// the identity endpoint discloses the session only to a session the current rules admit
+			r := s.b.GET(rep, pp+"/userinfo")
+			disclosed := r.Status == 200 && s.u.Email != "" && strings.Contains(string(r.Body), s.u.Email)
+			if !want {
+				cs.Refused++
+				w.nontriv = true
+				if r.Status == 200 || disclosed {
+					w.violate("C08", "served-against-current-rules", "userinfo", "%s: %s/userinfo answered %d (identity disclosed: %v) for the session of %s although the currently loaded rules do not admit it", label, pp, r.Status, disclosed, s.u.Email)
+				}
+				if !vfHasDeletion(r, cfg.CookieName) && !vfHasDeletion(r, cfg.CookieName+"_0") {
+					w.violate("C08", "cookie-not-cleared-on-refusal", cs.Store+"/userinfo", "%s: the session of %s failed the rules at %s/userinfo (status %d) but its cookie was not cleared", label, s.u.Name, pp, r.Status)
+				}
+				s.alive = false
+			} else if r.Status != 200 || (s.u.Email != "" && !disclosed) {
+				w.violate("C08", "refused-against-current-rules", "userinfo", "%s: %s/userinfo answered %d for the session of %s although the current rules admit it", label, pp, r.Status, s.u.Email)
 			}
 		}
 	}
